@@ -471,7 +471,119 @@ def context_init(P, R):
          'the parse context does not carry state from one load to the next', key='context-not-static', nontrivial=False)
 
 
+def dangling_fields(P, R, rule='C14.OWN.2'):
+    """A pointer that is released must not survive in a field of a longer-lived object: when `xfree(v)` is reached
+    while a field (of a parameter-owned or file-scope object) still holds the same pointer as the local v, every
+    path on to the function's exit re-assigns that field - otherwise whoever cleans the object up frees it again."""
+    unit = P.need_fn('conf_read').unit
+    n = 0
+    for f in P.unit_fns(unit):
+        frees = [s for s in f.calls() if s.ev.get('callee') in ('xfree', 'free') and s.ev['args'] and is_var(s.ev['args'][0]) and s.ev['args'][0].get('sc') == 'local']
+        for v in sorted({s.ev['args'][0]['name'] for s in frees}):
+            def fld(e):
+                return isinstance(e, dict) and e.get('k') == 'mem' and root_var(e) is not None and (root_var(e).get('sc') in ('param', 'static', 'global') or root_var(e).get('t', '').endswith('*'))
+
+            def on_event(st, s, v=v):
+                al, dang = st
+                ev = s.ev
+                if ev['k'] == 'store' and ev.get('op') == '=':
+                    lhs, rhs = ev['lhs'], ev.get('rhs') or {}
+                    if is_var(lhs, v):
+                        al2 = set()
+                        if fld(rhs):
+                            al2.add(sx(rhs))
+                        if rhs.get('k') == 'bin' and rhs.get('op') == '=' and fld(rhs.get('l')):
+                            al2.add(sx(rhs['l']))
+                        return (frozenset(al2), dang)
+                    if fld(lhs):
+                        k = sx(lhs)
+                        al2 = set(al) - {k}
+                        if is_var(rhs, v):
+                            al2.add(k)
+                        return (frozenset(al2), frozenset(set(dang) - {k}))
+                if ev['k'] == 'call' and ev.get('callee') in ('xfree', 'free') and ev['args'] and is_var(ev['args'][0], v):
+                    return (frozenset(), frozenset(set(dang) | set(al)))
+                return st
+
+            def on_edge(st, e, v=v):
+                r = rules.edge_rel(e)
+                if r and r[1] == '!=' and ((is_var(r[0], v) and fld(r[2])) or (is_var(r[2], v) and fld(r[0]))):
+                    k = sx(r[2] if is_var(r[0], v) else r[0])
+                    return (frozenset(set(st[0]) - {k}), st[1])
+                return st
+            before, at_exit, sin, bout = f.forward((frozenset(), frozenset()), on_event, on_edge)
+            n += 1
+            bad = sorted({k for st in at_exit for k in st[1]})
+            site = [s for s in frees if s.ev['args'][0]['name'] == v][0]
+            R.ob(rule, not bad, site, '%s: when %s is freed no field keeps the same pointer until the function returns%s' % (f.name, v, (' (still in %s)' % ', '.join(bad)) if bad else ''), key='dangling:%s:%s' % (f.name, v))
+    R.floor(rule, 3, 'locals released in the configuration unit')
+
+
+def error_branch_reads(P, R, rule='C14.NULL.1'):
+    """What the error branches of conf_read read from the parse context was set for this load: a pointer field read
+    on the branch for error code c is assigned before every longjmp that raises c (or in conf_read before anything
+    that can raise c).  The context starts zeroed, so an unset field is a NULL handed to the formatter / libc."""
+    cr = P.need_fn('conf_read')
+    unit = cr.unit
+    # error code -> longjmp sites
+    throws = {}
+    for f in P.unit_fns(unit):
+        for s in f.calls('longjmp'):
+            c = const_of(s.ev['args'][1]) if len(s.ev['args']) > 1 else None
+            if isinstance(c, int):
+                throws.setdefault(c, []).append(s)
+    if not throws:
+        raise AnalysisBroken('no longjmp sites in the configuration unit')
+
+    def ptr_field_reads(f, ctxvar):
+        out = []
+        for s in f.sites():
+            if s.ev['k'] != 'call':
+                continue
+            for a in s.ev['args']:
+                for x in walk(a):
+                    if x.get('k') == 'mem' and x.get('rec') == 'conf_parse' and '*' in x.get('t', '') and root_var(x) is not None and root_var(x)['name'] == ctxvar and s.ev.get('callee') not in ('xfree', 'free'):
+                        out.append((s, x['field']))
+        return out
+    ctx = [t.ev['var'] for t in cr.sites() if t.ev['k'] == 'decl' and 'conf_parse' in t.ev.get('t', '')]
+    if not ctx:
+        raise AnalysisBroken('conf_read has no parse context')
+    ctx = ctx[0]
+    n = 0
+    for b in cr.reachable_blocks():
+        for e in cr.out[b]:
+            if e.label != 'case' or not e.vs:
+                continue
+            codes = [c for c in e.vs if c != 0]
+            if not codes:
+                continue
+            region = [x for x in cr.reach([e.dst]) if e in cr.dominating_edges(x)]
+            reads = []
+            for s in cr.sites():
+                if s.bid in region and s.ev['k'] == 'call':
+                    reads += [(s2, fl) for (s2, fl) in ptr_field_reads(cr, ctx) if s2.key == s.key]
+                    # helpers handed the context
+                    if any(a.get('k') == 'un' and a.get('op') == '&' and is_var(a.get('e'), ctx) for a in s.ev['args']):
+                        for g in P.callees(s, False):
+                            if g.unit == unit:
+                                pi = [j for j, a in enumerate(s.ev['args']) if a.get('k') == 'un' and a.get('op') == '&' and is_var(a.get('e'), ctx)][0]
+                                if pi < len(g.params):
+                                    reads += ptr_field_reads(g, g.params[pi])
+            for (s, fl) in reads:
+                for c in codes:
+                    for t in throws.get(c, []):
+                        g = t.fn
+                        def sets(u, fl=fl):
+                            return u.ev['k'] == 'store' and any(x.get('k') == 'mem' and x.get('field') == fl and x.get('rec') == 'conf_parse' for x in [u.ev['lhs']] + [y for y in walk(u.ev.get('rhs') or {}) if y.get('k') == 'bin' and y.get('op') == '='] for x in ([x] if x.get('k') == 'mem' else [x.get('l') or {}]))
+                        p = g.path_avoiding(None, sets, target=t.bid, from_entry=True)
+                        n += 1
+                        R.ob(rule, p is None, t, 'error %d is reported using the context field %s (read at %s): %s assigns it before raising the error' % (c, fl, s.loc, g.name), key='errfield:%s:%d:%s' % (fl, c, g.name))
+    R.floor(rule, 3, 'system-error reports name the failing call')
+
+
 def run(P, R, tier):
+    dangling_fields(P, R)
+    error_branch_reads(P, R)
     decoder_advance(P, R)
     context_init(P, R)
     pc = phase_separation(P, R)
